@@ -6215,9 +6215,18 @@ impl Deserialize for bit_vec::BitVec<u32> {
         if numbytes & (1 << 63) != 0 {
             //New format
             numbytes &= !(1 << 63);
-            let mut ret = bit_vec::BitVec::with_capacity(numbytes * 8);
+            let capacity_bits = numbytes.checked_mul(8).ok_or(SavefileError::SizeOverflow)?;
+            let num_words = numbytes / 4;
+            if numbits > num_words * 32 {
+                return Err(SavefileError::GeneralError {
+                    msg: format!(
+                        "BitVec declares {} bits, but only {} bytes of storage",
+                        numbits, numbytes
+                    ),
+                });
+            }
+            let mut ret = bit_vec::BitVec::with_capacity(capacity_bits);
             unsafe {
-                let num_words = numbytes / 4;
                 let storage = ret.storage_mut();
                 storage.resize(num_words, 0);
                 let storage_ptr = storage.as_ptr() as *mut u8;
@@ -6381,9 +6390,18 @@ impl Deserialize for bit_vec08::BitVec<u32> {
         if numbytes & (1 << 63) != 0 {
             //New format
             numbytes &= !(1 << 63);
-            let mut ret = bit_vec08::BitVec::with_capacity(numbytes * 8);
+            let capacity_bits = numbytes.checked_mul(8).ok_or(SavefileError::SizeOverflow)?;
+            let num_words = numbytes / 4;
+            if numbits > num_words * 32 {
+                return Err(SavefileError::GeneralError {
+                    msg: format!(
+                        "BitVec declares {} bits, but only {} bytes of storage",
+                        numbits, numbytes
+                    ),
+                });
+            }
+            let mut ret = bit_vec08::BitVec::with_capacity(capacity_bits);
             unsafe {
-                let num_words = numbytes / 4;
                 let storage = ret.storage_mut();
                 storage.resize(num_words, 0);
                 let storage_ptr = storage.as_ptr() as *mut u8;
